@@ -109,6 +109,16 @@ theorem dsa_assert_hybrid_refused (m : MsgLen) (s : DsaSig) : DsaAssert.bind m .
 theorem engine_dsa_agrees (m : MsgLen) (k : EngineDsa.EKey) (s : DsaSig) : EngineDsa.py m k s = EngineDsa.bind m k s := by
   cases m <;> cases k <;> cases s <;> rfl
 
+theorem dsa_sign_agrees (q : Scalar) (m : MsgLen) (k : PubArg) : DsaSign.py q m k = DsaSign.bind q m k := by
+  cases q <;> cases m <;> cases k <;> rfl
+/-- a signature is only ever produced for a private key in 1..n-1, a 32-byte digest and no key or the signer's own -/
+theorem dsa_sign_value_iff (q : Scalar) (m : MsgLen) (k : PubArg) :
+    DsaSign.bind q m k = .value ↔ (q = .inRange ∧ m = .len32 ∧ (k = .none_ ∨ k = .own)) := by
+  cases q <;> cases m <;> cases k <;> decide
+
+theorem ssa_sign_agrees (q : Scalar) (aux : MsgLen) : SsaSign.py q aux = SsaSign.bind q aux := by
+  cases q <;> cases aux <;> rfl
+
 theorem recover_agrees (kid : KeyId) (m : MsgLen) (s : DsaSig) : Recover.py kid m s = Recover.bind kid m s := by
   cases kid <;> cases m <;> cases s <;> rfl
 
